@@ -728,3 +728,38 @@ def sym_zip_dumper(vc):
         check(it, 'nothing-written-at-finalisation', not [e for e in evs if e.method == 'write'])
         cover(it, 'reachable')
     vc.explore(fk, thunk, min_paths=2)
+
+
+# ------------------------------------------------------------------------------------------------ insert_hash_in_path
+
+def sym_insert_hash_in_path(vc):
+    """DumperBase.insert_hash_in_path(descriptor, hash): path' = dirname(p)/hash/basename(p) where p is the path itself or, for
+    a multi-part path given as a list, its FIRST element; an empty list or a non-string path is rejected (AssertionError);
+    nothing else in the descriptor is written"""
+    import z3
+    from pyvc.api import real_function, check, cover, sym_str, PyDict, PyList, term, StrS
+    from pyvc.symex import PyExc
+    fk = vc.under_contract(D + 'dumper_base.py', ['DumperBase', 'insert_hash_in_path'])
+    for shape in ('str', 'list1', 'list2', 'empty-list', 'number'):
+        def thunk(it, shape=shape):
+            DB = real_function(it, 'dataflows.processors.dumpers.dumper_base', 'DumperBase')
+            p, q, hsh = sym_str(it, 'p'), sym_str(it, 'q'), sym_str(it, 'digest')
+            path = {'str': p, 'list1': PyList([p]), 'list2': PyList([p, q]), 'empty-list': PyList([]), 'number': 7}[shape]
+            desc = PyDict({'name': 'r', 'path': path, 'other': 'kept'})
+            try:
+                it.call(it.lib.getattr_(it, DB, 'insert_hash_in_path'), [desc, hsh])
+            except PyExc as pe:
+                # (which exception class rejects it is not part of the property: it must be loud, and only for an unusable path)
+                check(it, 'only-an-unusable-path-is-rejected[%s]' % shape, shape in ('empty-list', 'number'))
+                return
+            check(it, 'unusable-path-never-accepted[%s]' % shape, shape not in ('empty-list', 'number'))
+            j3 = z3.Function('os.path.join3', StrS, StrS, StrS, StrS)
+            dn = z3.Function('os.path.dirname', StrS, StrS)
+            bn = z3.Function('os.path.basename', StrS, StrS)
+            newp = desc.d.get('path')
+            check(it, 'hash-directory-inserted-before-the-file-name-of-the-first-part[%s]' % shape,
+                  term(newp, StrS) == j3(dn(p.t), hsh.t, bn(p.t)))
+            check(it, 'nothing-else-written[%s]' % shape, set(desc.d) == {'name', 'path', 'other'} and desc.d['other'] == 'kept'
+                  and desc.d['name'] == 'r')
+            cover(it, 'reachable[%s]' % shape)
+        vc.explore(fk, thunk)
